@@ -168,7 +168,7 @@ theorem multiWrite_iter_matches_source (p : Bytes) (sinks : List Val) (rec : Stm
   obtain ⟨⟨c, errs, ws⟩, t⟩ := a
   obtain ⟨o, j⟩ := y
   by_cases h0 : i = 0 <;> by_cases h1 : o.n < c <;> cases t <;> cases he : o.err <;>
-    simp [Write_loop0, wAbs, wTail, wStep, wstep, h0, h1, he]
+    simp [Write_loop0, wAbs, wTail, wStep, wstep, h0, h1, he, traceName]
 
 /-- the whole loop of `multiWriteSyncer.Write` is the model's fold, for every number of sinks; no fuel is needed -/
 theorem multiWrite_loop_matches_source (p : Bytes) (outs : List Writers.Out) (rec : Stmt → State → GoMini.Out) :
@@ -195,7 +195,7 @@ theorem multiWrite_loop_matches_source (p : Bytes) (outs : List Writers.Out) (re
 theorem multiWrite_matches_source (p : Bytes) (outs : List Writers.Out) (fuel : Nat) :
     run X (fuel + 1) "Write" [.bytes p] [("ws", .list (sinksOf outs)), ("writes", .list [])] =
       .done [.int (multiWrite p outs).1, .list ((multiWrite p outs).2.map fun (i : Nat) => Val.int i)]
-        [("ws", .list (sinksOf outs)), ("writes", .list ((sinksOf outs).map fun s => Val.list [s, .bytes p]))] := by
+        [("ws", .list (sinksOf outs)), ("writes", .list ((sinksOf outs).map fun s => Val.list [traceName, s, .bytes p]))] := by
   refine run_of_fin X _ _ Gen.TransMultiWS.Write [.bytes p] _ _ _ rfl rfl ?_
   show (exec X (fuel + 1) Write_body ⟨[("p0", .bytes p)], _⟩).fin = _
   rw [exec_succ]
